@@ -568,7 +568,8 @@ def r4_rebuild(run, w):
          fi=fn.fi)
   for (rn, rc) in rec:
     rs = flow.roots(rc.func.value, rn.id)
-    ok = bool(rs) and all(r.kind == "call" and endswith(flow.call_name(r.node), "get_column") and
+    ok = bool(rs) and all(r.kind == "call" and isinstance(r.node.func, ast.Attribute) and
+                          r.node.func.attr == "get_column" and
                           not r.path and all(cfg.dominated_by(r.nid, {m}) for m in mod)
                           for r in rs)
     run.ob(R4, fn.qualname, short(rc), "the rebuild is asked of the column object created by the "
@@ -591,7 +592,8 @@ def r4_rebuild(run, w):
   p_col = fn.fi.params()[2]
   for (rn, rc) in rec:
     rs = flow.roots(rc.func.value, rn.id)
-    ok = bool(rs) and all(r.kind == "call" and endswith(flow.call_name(r.node), "get_column") and
+    ok = bool(rs) and all(r.kind == "call" and isinstance(r.node.func, ast.Attribute) and
+                          r.node.func.attr == "get_column" and not r.path and
                           [text(a) for a in r.node.args] == [p_col] for r in rs)
     run.ob(R4, fn.qualname, short(rc), "the fill is computed from the existing (source) column",
            ok, fi=fn.fi, node=rc)
